@@ -227,3 +227,51 @@ package qbft
 //@ loop 1 invariant (len(qCommit) > 0 <==> ncalls(d.Decide) == 1) && (len(qCommit) == 0 <==> ncalls(d.Decide) == 0)
 //@ loop 1 invariant ppjCache != nil ==> d.IsLeader(instance, round, process)
 //@ loop 1 invariant len(qCommit) > 0 ==> timerChan == nil
+
+// ---- leader side: finding a justified quorum of ROUND-CHANGE messages (algorithm 4:1) -------------------
+
+//@ func getPrepareQuorums
+//@ props C04
+//@ pure
+//@ requires nodesOK(d)
+//@ ensures forall(p, 0, len(result), len(result[p]) >= quorum(d) && distinctSources(result[p]) && allOf(result[p], MsgPrepare, result[p][0].Round(), result[p][0].Value()))
+//@ ensures forall(p, 0, len(result), forall(k, 0, len(result[p]), exists(j, 0, len(all), all[j] == result[p][k])))
+//@ loop 1 invariant forallk(key, sets, forallk(s, sets[key], sets[key][s].Type() == MsgPrepare && sets[key][s].Round() == key.round && sets[key][s].Value() == key.value && sets[key][s].Source() == s && exists(j, 0, $i, all[j] == sets[key][s])))
+//@ loop 2 invariant forall(p, 0, len(quorums), len(quorums[p]) >= quorum(d) && distinctSources(quorums[p]) && allOf(quorums[p], MsgPrepare, quorums[p][0].Round(), quorums[p][0].Value()))
+//@ loop 2 invariant forall(p, 0, len(quorums), forall(k, 0, len(quorums[p]), exists(j, 0, len(all), all[j] == quorums[p][k])))
+//@ loop 3 invariant len(quorum) == $i && forall(j, 0, $i, quorum[j] == msgs[$ks[j]])
+
+//@ func quorumNullPrepared
+//@ props C04
+//@ pure
+//@ requires nodesOK(d)
+//@ ensures r1 <==> len(r0) >= quorum(d)
+//@ ensures r0 == filterMsgs(all, MsgRoundChange, round, nil, ptr(int64(0)), ptr(zero(V)))
+
+//@ func filterRoundChange
+//@ props C04
+//@ pure
+//@ ensures result == filterMsgs(msgs, MsgRoundChange, round, nil, nil, nil)
+//@ ensures distinctSources(result) && forall(k, 0, len(result), result[k].Type() == MsgRoundChange && result[k].Round() == round)
+
+// cntLe(s, n, pr): how many of the first n ROUND-CHANGE messages carry a prepared round <= pr
+//@ spec func cntLe(s []Msg, n int, pr int64) int = ite(n <= 0, 0, cntLe(s, n-1, pr) + ite(s[n-1].PreparedRound() <= pr, 1, 0))
+
+// The search is complete: it fails only if there is no quorum of null-prepared ROUND-CHANGEs and, for every
+// quorum of PREPAREs (pr, pv), fewer than a quorum of ROUND-CHANGEs have a prepared round <= pr or none of them
+// is prepared at exactly (pr, pv). (A leader that holds a justification must propose: termination, C04.)
+//@ func getJustifiedQrc
+//@ props C04
+//@ nopanic
+//@ requires nodesOK(d)
+//@ ensures !r1 ==> !res(1, quorumNullPrepared(d, all, round))
+//@ ensures !r1 ==> forall(p, 0, len(getPrepareQuorums(d, all)),
+//@+   cntLe(filterRoundChange(all, round), len(filterRoundChange(all, round)), getPrepareQuorums(d, all)[p][0].Round()) < quorum(d) ||
+//@+   !hasPrepared(filterRoundChange(all, round), getPrepareQuorums(d, all)[p][0].Round(), getPrepareQuorums(d, all)[p][0].Value()))
+//@ ensures r1 ==> len(r0) >= quorum(d)
+//@ canary r1
+//@ canary !r1
+//@ loop 1 invariant forall(p, 0, $i, cntLe(roundChanges, len(roundChanges), getPrepareQuorums(d, all)[p][0].Round()) < quorum(d) ||
+//@+   !hasPrepared(roundChanges, getPrepareQuorums(d, all)[p][0].Round(), getPrepareQuorums(d, all)[p][0].Value()))
+//@ loop 2 invariant len(qrc) == cntLe(roundChanges, $i, pr) && (hasHighestPrepared <==> exists(k, 0, $i, roundChanges[k].PreparedRound() == pr && roundChanges[k].PreparedValue() == pv))
+//@ loop 2 invariant all(s, int64, uniq.dedup[s] ==> exists(k, 0, $i, roundChanges[k].Source() == s))
